@@ -39,7 +39,11 @@ impl ErrRec {
             },
             TagIteratorError::UnexpectedEOF { tag_start, tag_id, tag_size, partial_data } => ErrRec::Eof { start: *tag_start, id: *tag_id, size: *tag_size, partial: partial_data.clone() },
             TagIteratorError::CorruptedTagData { tag_id, problem } => ErrRec::TagData { id: *tag_id, problem: format!("{:?}", problem).chars().take(60).collect() },
-            TagIteratorError::ReadError { source } => ErrRec::Read { kind: format!("{:?}", source.kind()), msg: source.to_string() },
+            TagIteratorError::ReadError { source } => {
+                // "carrying the original error": through the variant's field and through std::error::Error::source()
+                let via_chain = std::error::Error::source(e).and_then(|s| s.downcast_ref::<std::io::Error>()).map(|io| io.kind() == source.kind() && io.to_string() == source.to_string()).unwrap_or(false);
+                ErrRec::Read { kind: format!("{:?}", source.kind()), msg: if via_chain { source.to_string() } else { format!("{} [Error::source() does not lead to this error]", source) } }
+            }
         }
     }
     pub fn kind(&self) -> &'static str {
